@@ -227,8 +227,42 @@ func enumC08HandWritten(e *engine.Emitter) {
 	}
 }
 
+// hand-written keyed-member hunks: the path names a member by one or two keys (a key value may be null),
+// the nested hunk (v: 1 -> 2) fits every member of the alphabet, and the targets are all arrays of up to
+// three members that carry, lack, or hold null under the naming keys - so the only question is WHICH member
+// is addressed: exactly the one that holds every listed key with the listed value, wherever it stands.
+func enumC08HandWrittenKeyed(e *engine.Emitter) {
+	obj := func(kv ...interface{}) V {
+		m := map[string]interface{}{"v": 1.0}
+		for i := 0; i+1 < len(kv); i += 2 {
+			m[kv[i].(string)] = kv[i+1]
+		}
+		return m
+	}
+	members := []V{obj("id", 1.0), obj("id", 1.0, "t", nil), obj("id", 1.0, "t", "x"), obj("id", 2.0, "t", nil), obj("t", nil), obj("id", nil), 1.0}
+	keysets := []map[string]V{{"id": 1.0}, {"id": 1.0, "t": nil}, {"id": 1.0, "t": "x"}, {"id": nil}, {"id": nil, "t": nil}, {"t": nil}, {"id": 2.0, "t": nil}}
+	targets := gen.Arrays(3, members)
+	for _, ks := range keysets {
+		for _, under := range []bool{false, true} {
+			path := []ref.PE{ref.SetKeysPE(ks), ref.K("v")}
+			if under {
+				path = append([]ref.PE{ref.K("a")}, path...)
+			}
+			x := ref.EncodeHunks([]ref.Hunk{{Path: path, Remove: []V{1.0}, Add: []V{2.0}}})
+			for _, t := range targets {
+				var tv V = t
+				if under {
+					tv = map[string]interface{}{"a": t}
+				}
+				e.Emit(engine.Case{Kind: "c08hw:SETKEYS:id,t", Leg: "hand-written/setkeys", C: ref.JSON(tv), X: x})
+			}
+		}
+	}
+}
+
 func enumC08(tier string, e *engine.Emitter) {
 	enumC08HandWritten(e)
+	enumC08HandWrittenKeyed(e)
 	for _, o := range c08Opts {
 		kind := "c08:" + o
 		hk := engine.HS(kind)
